@@ -15,8 +15,8 @@ Record verdict := { corr_ok : bool; spec_ok : bool; wf_ok : bool }.
 Definition NF (w : Z) (ar : list (list Z)) (keys : Z) (inv : bool) : nfilter := mkNF (Z.to_nat w) ar keys inv.
 Definition TF (w : Z) (ar : list (list ntype)) (inv : bool) : tfilter := mkTF (Z.to_nat w) ar inv.
 Definition A2 {A} (w : Z) (rows : list (list A)) : arr_in A := In2 (Z.to_nat w) rows.
-Definition N (c o : Z) (t : ntype) : note := mkN c o t.
-Definition NL (t : ntype) (rows : list (Z * Z * Z)) : nlist := mkNL t rows.
+Definition Nt (c o : Z) (t : ntype) : note := mkN c o t.
+Definition NLs (t : ntype) (rows : list (Z * Z * Z)) : nlist := mkNL t rows.
 
 Inductive pinput :=
 | PDirect (rows : list note)                      (* Pattern(cols, offsets, types) *)
